@@ -54,6 +54,7 @@ type mEntry struct {
 	out        map[uint64]*mOut
 	token      string // learned forwarder token (hex), "" unknown
 	fresh      bool   // no Interest of this entry has been forwarded / recorded before (first Interest)
+	everOut    bool   // some Interest of this entry has been observed going out on some face
 	maybe      bool   // implementation may already have dropped this entry (reaped inside a guard band)
 	tokenStale bool   // the learned token may belong to an entry instance the forwarder has already dropped
 }
@@ -1041,9 +1042,12 @@ func (fr *fwRun) stepInterest(st *fwStep) {
 		}
 		usable[f] = cost
 	}
-	if st.NextHop == nil && wasFresh && !suppressed && certain {
+	// "first" also covers an entry none of whose earlier Interests went out anywhere (each was refused:
+	// hop limit exhausted, no usable next hop then): nothing was forwarded, so nothing can suppress
+	// this one
+	if st.NextHop == nil && (wasFresh || !e.everOut) && !suppressed && certain {
 		fr.nAssert++
-		fr.c.Distinct(fmt.Sprintf("I|first|%s|nh=%d|usable=%d|hint=%v", strat, min(len(allowed), 3), min(len(usable), 3), fh != nil))
+		fr.c.Distinct(fmt.Sprintf("I|first|%s|nh=%d|usable=%d|hint=%v|entry-existed=%v", strat, min(len(allowed), 3), min(len(usable), 3), fh != nil, !wasFresh))
 		if len(usable) > 0 && len(iS) == 0 {
 			fr.fail("C02", "C02:first-interest-not-forwarded:"+strat, fmt.Sprintf("first Interest %s (not in the cache) has usable next hops %s but was not forwarded", st.Name, hopsStr(usable)), nil)
 			if isLocalhost(st.name) && F.local {
@@ -1078,6 +1082,12 @@ func (fr *fwRun) stepInterest(st *fwStep) {
 		for _, s := range iS {
 			e.out[s.Face] = &mOut{nonce: nonce, tLo: t0, tHi: t1}
 		}
+	}
+	if len(iS) > 0 {
+		e.everOut = true
+	}
+	if !wasFresh && !e.everOut {
+		fr.c.Count("interests_on_entry_never_forwarded_before", 1)
 	}
 	fr.c.Count("interest_steps", 1)
 	fr.c.Count("interests_forwarded", int64(len(iS)))
